@@ -86,10 +86,14 @@ func runC09(r *simrt.Run) {
 		w.SetEpochDuration(time.Duration(300*(2+t.Choose(3))) * time.Second)
 		w.ShortRewardKnobs(int64(10*t.Choose(6)), uint64(1+t.Choose(10)))
 	}
+	bridgeOn := false
 	if t.Bool() {
 		// a harness key administers bridge and liquidity: their gated methods run for real
 		w.BridgeAdmin(w.Users[t.Choose(3)].Address, uint64(1+t.Choose(8)), 1+t.Choose(5))
 		r.Probe("bridge-admin-installed")
+		// and under the bridge spork the bridge is brought into a usable state (orchestrator, TSS key,
+		// networks, token pairs), so that calls reach the states behind the initialisation guards
+		bridgeOn = mode == nomsim.SporksActive && t.Bool()
 	}
 	p := w.AddNode("P", nomsim.MockPillars(), false)
 	f := w.AddNode("F", nil, false)
@@ -104,12 +108,22 @@ func runC09(r *simrt.Run) {
 	p.OnBlock = func(_ *simnode.Node, b *nom.AccountBlock) { fresh = append(fresh, b) }
 	// one run in three pushes tokens with boundary supplies (2^63 .. 2^255-1) through calls
 	wl.Huge = t.Choose(3) == 0
+	if bridgeOn {
+		wl.G.EnableBridge()
+		r.Probe("bridge-enabled")
+	}
 	methods := map[string]int{}
 	calls := 0
 
 	for s := 0; s < slots; s++ {
 		t.Span(func() {
 			wl.G.RefreshTokens(p)
+			if bridgeOn {
+				nomsim.FlowByName("bridge-setup").Run(wl.G, p)
+				t.Loop(1, 2, 3, func() {
+					nomsim.FlowByName(nomsim.BridgeFlowNames[1+t.Choose(len(nomsim.BridgeFlowNames)-1)]).Run(wl.G, p)
+				})
+			}
 			wl.Ops(p)
 			if t.Choose(14) == 0 {
 				w.SkipSlots(int64(1 + t.Choose(60)))
